@@ -4,8 +4,8 @@ Proof side : coq/Properties_C16b.v over coq/Handles.v (getters cgi_get_file / ge
              coq/Refcount.v (the tables and their open / close functions, current code = Cur / MCur): for EVERY session
              C16_handle_resolves_to_own_slot_{mll,cgio,adf}, C16_open_handles_distinct_{mll,cgio_adf},
              C16_closed_handle_rejected_{mll,cgio,adf}, C16_close_touches_one_slot_{mll,cgio_adf}, and what is false:
-             C16_cgio_closed_slot_accepted_refuted (get_cgnsio tests the range only); C16_mll_numbers_never_reissued for the
-             current offset arithmetic (+= since /repo ecfdd66), C16_mll_number_reissued_old_refuted for the old one.
+             C16_mll_numbers_never_reissued for the current offset arithmetic (+= since /repo ecfdd66); about the OLD code only:
+             C16_mll_number_reissued_old_refuted, C16_cgio_closed_slot_accepted_old_refuted (get_cgnsio before 137980e).
 Tie C      : harness/c16b_h.c drives cg_open / cg_close / uses of RAW file numbers and cgio_open_file / cgio_close_file / uses
              of RAW cgio numbers on the library rebuilt from the working tree; after EVERY operation the answer and the tables
              (n_open, n_cgns_files, cgns_file_size, file_number_offset; num_open, num_iolist, slots; ADF_file[] in_use / name /
@@ -25,7 +25,7 @@ import vlib
 CHECKER = "make -C coq HandlesProofs.vo (coqc 8.16.1 kernel) ; coqc Properties_C16b.v (Print Assumptions)"
 WORKERS = 4
 K_REISSUE = "handle:mll-file-number-reissued"           # repaired by /repo ecfdd66 (file_number_offset += n_cgns_files); regression key
-K_CLOSEDSLOT = "handle:cgio-closed-slot-accepted"
+K_CLOSEDSLOT = "handle:cgio-closed-slot-accepted"       # repaired by /repo 137980e (get_cgnsio refuses a closed slot); regression key
 K_FTYPE = "open:adf-file-refused-after-hdf5-default"   # cg_open(READ) of an ADF file fails once the default file type is HDF5
 SPECIAL = {10: "missing", 11: "garbage", 12: "badver", 14: "badbase"}
 LATE = {"badver", "badbase"}
@@ -353,7 +353,7 @@ def body(ck, standalone):
                                           regression_of=c["file"], repaired_by=c.get("fixed_by"),
                                           oracle="regression corpus: the witness of a repaired defect fails again"))
     mcases = [gen_mll(ck.rng, big) for _ in range(nm)]
-    icases = [CLOSEDSLOT] + [gen_io(ck.rng, big) for _ in range(ni)]
+    icases = [gen_io(ck.rng, big) for _ in range(ni)]
     futs = [pool.submit(mll_case, exe, s, o, c, ck.work, "b_m%d" % i, res["ok"]) for i, (s, o, c) in enumerate(mcases)]
     futs += [pool.submit(io_case, exe, w, o, ck.work, "b_i%d" % i, res["ok"]) for i, (w, o) in enumerate(icases)]
     for fu in futs:
